@@ -12,7 +12,7 @@ pub fn prop() -> Prop {
         id: "C16", title: "No machine state makes the simulator panic", level: "fault_enumeration",
         rule: "Machines: full 64K memory images (uniform random, encoding-biased, pointer-biased, or the OS image with random patches), random registers with initialized/uninitialized mix, all 16 combinations of {strict, real traps, debug frames, ignore privilege} x 3 \
                initialization strategies, PC from {x0000, xFDFF, xFE00, xFFFF, every page boundary, random}, PSR privilege/priority, saved SP; keyboard (with queue, optional interrupt enable), display, an enabled seeded timer, a scripted interrupt device, \
-               and PC/PSR/MCR/SavedSP mapped at random I/O ports. Each machine executes up to 200 step_in, then run_with_limit, step_over, step_out, and finally prefetch_pc(), frames(), psr(), hit_halt(), hit_breakpoint() and a reset. \
+               and PC/PSR/MCR/SavedSP mapped at random I/O ports. Each machine executes up to 200 step_in, then run-style calls (run_while with an instruction limit like run_with_limit, step_over- and step_out-style frame conditions, all additionally bounded by a boundary counter because a corrupted OS can loop through exception entries without ever completing an instruction), and finally prefetch_pc(), frames(), psr(), hit_halt(), hit_breakpoint() and a reset. \
                Everything runs inside catch_unwind in sharded processes; a panic or a shard killed by a signal is a violation; every failure must surface as Err(SimErr). verif and release profiles. Non-trivial = machine that executed at least one step; distinct = machine seed.",
         assumptions: &["x86-64; two build profiles (verif, release)"],
         also_release: true, abort_is_violation: true, run, guard,
@@ -79,7 +79,7 @@ fn run(ctx: &mut Ctx) {
         ctx.count_n("steps", steps);
         for (name, f) in [("run_with_limit", 0u8), ("step_over", 1), ("step_out", 2), ("run_with_limit-2", 0)] {
             let lim = rng.below(300);
-            let r = crate::monitor::guard(|| match f { 0 => sim.run_with_limit(lim), 1 => { let mut c = 0; sim.run_while(|_| { c += 1; c < 300 }).and_then(|_| { let mut c2 = 0; let d = sim.frame_stack.len(); sim.run_while(move |s| { c2 += 1; c2 < 100 && (c2 == 1 || d < s.frame_stack.len()) }) }) } _ => { if sim.frame_stack.len() > 0 { let mut c = 0; let d = sim.frame_stack.len(); sim.run_while(move |s| { c += 1; c < 300 && (c == 1 || d <= s.frame_stack.len()) }) } else { sim.step_out() } } });
+            let r = crate::monitor::guard(|| match f { 0 => { let i0 = sim.instructions_run; let mut c = 0; sim.run_while(move |s| { c += 1; c < 400 && s.instructions_run.wrapping_sub(i0) < lim }) }, 1 => { let mut c = 0; sim.run_while(|_| { c += 1; c < 300 }).and_then(|_| { let mut c2 = 0; let d = sim.frame_stack.len(); sim.run_while(move |s| { c2 += 1; c2 < 100 && (c2 == 1 || d < s.frame_stack.len()) }) }) } _ => { if sim.frame_stack.len() > 0 { let mut c = 0; let d = sim.frame_stack.len(); sim.run_while(move |s| { c += 1; c < 300 && (c == 1 || d <= s.frame_stack.len()) }) } else { sim.step_out() } } });
             match r { Ok(Ok(())) => ctx.count(&format!("calls.{name}.ok")), Ok(Err(e)) => ctx.count(&format!("calls.{name}.err.{}", err_kind(&e))), Err(p) => { ctx.violation(&format!("panic:{name}:{}", p.sig()), format!("{name} panicked: {} ({}:{})", p.msg, p.file, p.line), case(name)); return; } }
         }
         let q = crate::monitor::guard(|| { let a = sim.prefetch_pc(); let b = sim.frame_stack.frames().map(|f| f.len()); let c = sim.psr().get(); let d = (sim.hit_halt(), sim.hit_breakpoint()); let e = format!("{:?}", sim.psr()); (a, b, c, d, e.len()) });
